@@ -11,7 +11,7 @@ from fiddle._src import config as config_lib
 from harness import common, l2, c02
 from harness.common import Failure, Result, Stream
 
-COQ_TARGETS = ["theories/C05Check.vo", "theories/Anchors.vo"]
+COQ_TARGETS = ["theories/C05Check.vo", "theories/AnchorsBuild.vo"]
 TRUSTED_BASE = ["how Python subclasses exception types (ExceptionProxy) is runtime behaviour the model "
                 "does not exhibit: that clause is decided by the harness oracle only"]
 ASSUMPTIONS = []
